@@ -26,10 +26,13 @@ func C10(c *Ctx) {
 	name := FuncName(fn)
 
 	// (2) delAllState contract and flush order
-	das := c.P.Func("ab.delAllState")
+	das := c.role("ab.delAllState", func() *ssa.Function {
+		return c.calleeWith(c.P.Func(fnDelAllSession), func(f *ssa.Function) bool { return len(CallsTo(f, "strings.Join")) > 0 })
+	})
+	ssName := FuncName(c.queueFunc())
 	okJoin := false
 	for _, call := range Calls(das) {
-		if Callee(call) != "ab.setState" {
+		if Callee(call) != ssName {
 			continue
 		}
 		kind, isC := ConstInt(Arg(call, 2))
@@ -83,7 +86,7 @@ func C10(c *Ctx) {
 // session store and cookie queue to the cookie store.
 func (c *Ctx) flushUnmodified(rule string) {
 	r := c.R
-	fn := c.P.Func("(*ab.ClientStateResponseWriter).putClientState")
+	fn := c.flushFunc()
 	name := FuncName(fn)
 	n := 0
 	for _, call := range CallsTo(fn, "(ab.ClientStateReadWriter).WriteState") {
@@ -112,11 +115,8 @@ func (c *Ctx) flushUnmodified(rule string) {
 				if fld != "sessionStateEvents" && fld != "cookieStateEvents" {
 					continue
 				}
+				// whoever writes a queue (setState on the pinned tree) may only append to it
 				fn := FuncName(f)
-				if fn != "ab.setState" {
-					r.Bad(rule, fn, "store "+fld, posf(c, st), "event queue written outside setState")
-					continue
-				}
 				// x = append(x, ev) on the same field
 				ac, _ := CallOf(st.Val)
 				okApp := false
@@ -322,7 +322,24 @@ func (c *Ctx) routerDispatch(rule string) {
 		fld := ""
 		for _, call := range Calls(reg) {
 			if strings.HasSuffix(Callee(call), "ServeMux).Handle") {
-				fld = fieldLoadName(Arg(call, 0))
+				// the table may be selected by a (now inlined) helper switching on a
+				// method constant: follow only the operands whose edge is consistent
+				// with the constants compared on it
+				fields := map[string]bool{}
+				for _, v := range feasibleOperands(Arg(call, 0), 0) {
+					if n := fieldLoadName(v); n != "" {
+						fields[n] = true
+					} else if !IsNilConst(v) {
+						fields["?"] = true
+					}
+				}
+				if len(fields) == 1 {
+					for k := range fields {
+						if k != "?" {
+							fld = k
+						}
+					}
+				}
 			}
 		}
 		if fld == "" {
@@ -426,4 +443,33 @@ func (c *Ctx) logoutHooks(rule string) {
 	if n == 0 {
 		r.Info(rule, "-", "EventLogout handlers", "-", "the library registers no handler on EventLogout (reference: 0); integrator handlers are not decided")
 	}
+}
+
+// feasibleOperands resolves a value through phis, dropping operands whose
+// incoming edge carries a comparison of two constants that is false (the
+// residue of inlining a helper that switches on a constant argument).
+func feasibleOperands(v ssa.Value, d int) []ssa.Value {
+	phi, ok := v.(*ssa.Phi)
+	if !ok || d > 4 {
+		return []ssa.Value{v}
+	}
+	var out []ssa.Value
+	for i, e := range phi.Edges {
+		feasible := true
+		for _, f := range FactsAtEdge(phi.Block().Preds[i], phi.Block()) {
+			b, isB := f.Cond.(*ssa.BinOp)
+			if !isB || (b.Op != token.EQL && b.Op != token.NEQ) {
+				continue
+			}
+			x, okX := ConstStr(b.X)
+			y, okY := ConstStr(b.Y)
+			if okX && okY && ((x == y) == (b.Op == token.EQL)) != f.Pol {
+				feasible = false
+			}
+		}
+		if feasible {
+			out = append(out, feasibleOperands(e, d+1)...)
+		}
+	}
+	return out
 }
